@@ -318,6 +318,18 @@ impl Contour {
                 .rev()
                 .position(|pt| pt.typ != PointType::OffCurve)
                 .map(|idx| self.points.len() - 1 - idx);
+            if rotate.is_none() {
+                // Only off-curve points: the contour starts at the implied on-curve point
+                // halfway between the last and the first point, and every point is the
+                // control point of a quadratic ending at the implied point before the next.
+                if let (Some(first), Some(last)) = (self.points.first(), self.points.last()) {
+                    path.move_to(last.to_kurbo().midpoint(first.to_kurbo()));
+                    for (pt, next) in self.points.iter().zip(self.points.iter().cycle().skip(1)) {
+                        path.quad_to(pt.to_kurbo(), pt.to_kurbo().midpoint(next.to_kurbo()));
+                    }
+                }
+                return Ok(path);
+            }
             self.points.iter().cycle().skip(rotate.unwrap_or(0)).take(self.points.len() + 1)
         } else {
             #[allow(clippy::iter_skip_zero)]
